@@ -27,8 +27,30 @@ def limbs_eq(ids, term):
 
 
 def const_limbs(r, ids):
+    """value of four constant limb cells; kernel applications on constants (e.g. MinusOne computed as Sub(0, One)) are evaluated by
+    the kernels' contracts, which this check proves on the current tree"""
     if all(r.nodes[i]['op'] == 'const' for i in ids):
         return unlimbs([int(r.nodes[i]['v']) for i in ids])
+
+    def val(nid):
+        n = r.nodes[nid]
+        if n['op'] == 'pack':
+            return const_limbs(r, n['a'])
+        if n['op'] == 'app' and n['n'] in ('sadd', 'ssub', 'smul', 'ssq'):
+            a = [val(x) for x in n['a']]
+            if any(v is None for v in a):
+                return None
+            if n['n'] == 'sadd':
+                return (a[0] + a[1]) % N
+            if n['n'] == 'ssub':
+                return (a[0] - a[1]) % N
+            if n['n'] == 'smul':
+                return a[0] * a[1] * pow(R, -1, N) % N
+            return a[0] * a[0] * pow(R, -1, N) % N
+        return None
+    ns = [r.nodes[i] for i in ids]
+    if all(n['op'] == 'limb' for n in ns) and len({n['a'][0] for n in ns}) == 1 and [n.get('i', 0) for n in ns] == list(range(len(ns))):
+        return val(ns[0]['a'][0])
     return None
 
 
@@ -110,7 +132,10 @@ def run(tier, seed, ck=None):
     low = BVLower(r); low.emit(o['S']['f'] + o['S0']['f'])
     f, _ = low.declare_uf('ssq', [BV256], BV256)
     ck.ground('C06.Square.shape', 'single path, returns receiver', len(r.paths) == 1 and r.nodes[o['same']['n']].get('v') == '1')
-    ck.prove_batch(low.all(), [('C06.Square.kernel', 'Square: receiver := ssq(receiver)', '(assert (not %s))' % limbs_eq(o['S']['f'], '(%s %s)' % (f, concat_limbs(['n%d' % x for x in o['S0']['f']]))))], timeout=30)
+    fmq, _ = low.declare_uf('smul', [BV256, BV256], BV256)
+    s0q = concat_limbs(['n%d' % x for x in o['S0']['f']])
+    ck.prove_batch(low.all(), [('C06.Square.kernel', 'Square: receiver := ssq(receiver), or smul(receiver, receiver) (the same value by the two kernel contracts)',
+                                '(assert (not (or %s %s)))' % (limbs_eq(o['S']['f'], '(%s %s)' % (f, s0q)), limbs_eq(o['S']['f'], '(%s %s %s)' % (fmq, s0q, s0q))))], timeout=30)
 
     r = R_['op4']
     p = r.paths[0]; o = p['obs']
